@@ -97,8 +97,9 @@ type mUpload struct {
 	Buf  []byte
 	// Check is the pending start-offset check of each BlobWriter value obtained for this session, by writer slot:
 	// absent or -2: no pending check; -1: resume asked "continue"; >=0: that writer's first write must be at this offset.
-	Check map[int]int64
-	State string // open, committed, cancelled, failed
+	Check    map[int]int64
+	State    string // open, committed, cancelled, failed
+	Explicit bool   // started under a caller-chosen ID
 }
 
 type Model struct {
@@ -388,6 +389,9 @@ func (m *Model) Predict(u *universe, op Op) Pred {
 		if !validRepo {
 			return Pred{Ok: mustFail, Why: "invalid repository name"}
 		}
+		if op.Off == "id" {
+			return Pred{Ok: either, Why: "resuming an upload ID that was never issued in this repository"}
+		}
 		return Pred{Ok: mustOK, Why: "new upload"}
 	case "Resume":
 		up := m.Uploads[op.H]
@@ -477,7 +481,7 @@ func (m *Model) Advance(u *universe, op Op, ok bool) {
 		}
 	case "Start":
 		if ok {
-			m.Uploads = append(m.Uploads, &mUpload{Repo: op.Repo, Check: map[int]int64{0: 0}, State: "open"})
+			m.Uploads = append(m.Uploads, &mUpload{Repo: op.Repo, Check: map[int]int64{0: 0}, State: "open", Explicit: op.Off == "id"})
 		} else {
 			m.Uploads = append(m.Uploads, &mUpload{Repo: op.Repo, State: "dead"})
 		}
